@@ -119,6 +119,11 @@ def run_smtp_case(case):
     try:
         for a in range(nmsgs):
             env = make_env(case['nrcpt'][a] if isinstance(case['nrcpt'], list) else case['nrcpt'], 'm%d' % a)
+            if case.get('utf8_rcpt') is not None and case['utf8_rcpt'] < len(env.recipients):
+                # an address that needs SMTPUTF8, which this peer does not offer
+                env.recipients[case['utf8_rcpt']] = 'b\u00e9b\u00e9%d@m%d.example' % (case['utf8_rcpt'], a)
+            if case.get('utf8_sender'):
+                env.sender = 's\u00e9nder@example.com'
             rcpts = list(env.recipients)
             marks = [len(p.log) for p in peers]
             got = AsyncResult()
@@ -177,6 +182,12 @@ def run_smtp_case(case):
                     continue
                 else:
                     applies_all.append((stage, outc, cls_))
+            if case.get('utf8_sender'):
+                applies_all.append(('MAIL', 'sender needs SMTPUTF8', 'perm'))
+                applies_all.append(('MAIL', 'sender needs SMTPUTF8', 'temp'))
+            if case.get('utf8_rcpt') is not None and case['utf8_rcpt'] < len(rcpts):
+                applies_rcpt.setdefault(case['utf8_rcpt'], []).extend([('RCPT', 'recipient needs SMTPUTF8', 'perm'),
+                                                                        ('RCPT', 'recipient needs SMTPUTF8', 'temp')])
             if isinstance(case.get('auth'), str) and not set(case['auth'].split()) & {'PLAIN', 'LOGIN', 'CRAM-MD5'}:
                 # nothing the client could use is on offer: the attempt cannot succeed
                 applies_all.append(('AUTH', 'no usable mechanism', 'perm'))
@@ -279,6 +290,12 @@ def smtp_table():
                         script['DATA'] = data
                         yield {'kind': kind, 'pipelining': pipelining, 'nrcpt': n, 'scripts': [script]}
             yield {'kind': kind, 'pipelining': pipelining, 'nrcpt': 2, 'scripts': [{'EHLO': '500'}]}
+            # addresses that cannot be sent to this peer (no SMTPUTF8 on offer)
+            for n in (1, 2, 3):
+                for i in range(n):
+                    yield {'kind': kind, 'pipelining': pipelining, 'nrcpt': n, 'utf8_rcpt': i, 'scripts': [{}]}
+                    yield {'kind': kind, 'pipelining': pipelining, 'nrcpt': n, 'utf8_rcpt': i, 'reuse': True, 'scripts': [{}, {}]}
+                yield {'kind': kind, 'pipelining': pipelining, 'nrcpt': n, 'utf8_sender': True, 'scripts': [{}]}
             # AUTH exchanges going wrong on the server side: a challenge that is not base64, unknown / challenge-first mechanisms
             for mechs in ('PLAIN LOGIN', 'LOGIN', 'FOOBAR', 'NTLM GSSAPI', 'FOOBAR PLAIN', 'NTLM LOGIN'):
                 for outc in ('334bad', '2xx', '5xx'):
@@ -351,6 +368,8 @@ PIPE_TEXTS = [b'', b'5.1.1 user unknown\n', b'4.2.0 mailbox busy\n', b'something
 def run_pipe_case(case):
     cls = {'pipe': PipeRelay, 'maildrop': MaildropRelay, 'dovecot': DovecotLdaRelay}[case['relay']]
     prog = delivery_program(case['status'], bytes.fromhex(case['out']), bytes.fromhex(case['err']))
+    if case.get('missing'):
+        prog = prog + '.does-not-exist'          # the delivery program cannot be started at all
     if cls is PipeRelay:
         relay = PipeRelay([prog, '{recipient}'], timeout=20)
         relay.per_recipient = case['per_recipient']
@@ -374,7 +393,11 @@ def run_pipe_case(case):
     out = []
     for r in rcpts:
         v = verdicts[r]
-        if case['status'] == 0:
+        if case.get('missing'):
+            if v == 'ok':
+                out.append(('C11:success-reported-without-acceptance:%s' % case['relay'], '%s: no program was run' % desc))
+                break
+        elif case['status'] == 0:
             if v != 'ok':
                 out.append(('C11:unexplained-failure:%s' % case['relay'], '%s: exit status 0 reported as %s' % (desc, v)))
                 break
@@ -432,6 +455,8 @@ def pipe_table():
                                  (PIPE_TEXTS[7], b'')):
                     yield {'relay': relay, 'per_recipient': per if per is not None else (relay == 'dovecot'),
                            'status': status, 'out': out.hex(), 'err': err.hex(), 'nrcpt': 2 if per else 1}
+            yield {'relay': relay, 'per_recipient': per if per is not None else (relay == 'dovecot'), 'status': 0, 'out': '', 'err': '',
+                   'nrcpt': 2 if per else 1, 'missing': True}
 
 
 # =====================================================================================
